@@ -119,7 +119,7 @@ theorem parseOpt_text {t : Str} {o : TcpOption} (h : OptT t o) {r : Str} (hr : D
     obtain ⟨tv, rfl, hv⟩ := h
     have hv' : NumT u8Max tv n := hv
     simp [parseOpt, alt, prefixNum, tag_cons_ne, altTags_none_of_head plainOptTable_noQuestion,
-      optUnknown, digit1_text hv' hnd, parseMax_text hv']
+      number_text hv' hnd]
   | nop => have : t = _ := h; subst this; rw [← p1]; exact parseOpt_print_plain _ (fun n => ⟨by simp, by simp⟩) r
   | mss => have : t = _ := h; subst this; rw [← p2]; exact parseOpt_print_plain _ (fun n => ⟨by simp, by simp⟩) r
   | ws => have : t = _ := h; subst this; rw [← p3]; exact parseOpt_print_plain _ (fun n => ⟨by simp, by simp⟩) r
@@ -341,8 +341,7 @@ theorem optT_plain {o : TcpOption} (h : isPlainOpt o = true) : OptT (printOpt o)
   | sack => exact p5
   | ts => exact p6
 
-theorem parseOpt_line {L a s r : Str} {o : TcpOption} (hL : L = a ++ s)
-    (hk : ¬ Huginn.KF.C06.unknownKindOverflow L) (h : parseOpt s = some (o, r)) :
+theorem parseOpt_line {s r : Str} {o : TcpOption} (h : parseOpt s = some (o, r)) :
     ∃ t, s = t ++ r ∧ OptT t o := by
   obtain ⟨p, hp, hps⟩ := alt_inv h
   simp only [List.mem_cons, List.mem_nil_iff, or_false] at hp
@@ -354,26 +353,8 @@ theorem parseOpt_line {L a s r : Str} {o : TcpOption} (hL : L = a ++ s)
     have h2 := plainOptTable_plain _ hm
     simp only at h1 h2
     exact ⟨t, e, by rw [← h1]; exact optT_plain h2⟩
-  · unfold optUnknown at hps
-    cases h1 : tag ['?'] s with
-    | none => simp [h1] at hps
-    | some y =>
-      obtain ⟨u, r1⟩ := y
-      simp only [h1] at hps
-      cases h2 : digit1 r1 with
-      | none => simp [h2] at hps
-      | some z =>
-        obtain ⟨d, r2⟩ := z
-        simp [h2] at hps
-        obtain ⟨rfl, rfl⟩ := hps
-        have e1 := tag_inv h1
-        obtain ⟨e2, hne, hd, hr⟩ := digit1_inv h2
-        have hL1 : L = a ++ ('?' :: (d ++ r2)) := by rw [hL, e1, e2]; simp
-        have hfit := unknown_fits hL1 hk hne hd hr
-        have : parseMax u8Max d = some (decVal d) := by simp [parseMax, u8Max, hfit]
-        refine ⟨'?' :: d, by rw [e1, e2]; simp, d, rfl, ?_⟩
-        rw [this]
-        exact ⟨hne, hd, rfl, hfit⟩
+  · obtain ⟨v, tv, rfl, e, hn⟩ := prefixNum_line hps
+    exact ⟨'?' :: tv, by rw [e]; simp, tv, rfl, hn⟩
 
 /-! ### lists, with the position in the line -/
 
@@ -448,10 +429,8 @@ theorem verT_print (v : IpVersion) : VerT (printIpVersion v) v := by
 theorem payT_print (p : PayloadSize) : PayT (printPayload p) p := by
   cases p <;> (show printPayload _ = _; decide +kernel)
 
-/-- **every accepted text is a line of the TCP signature language denoting the parsed value** —
-unless it contains a `?n` with n > 255 (`KF.C06.unknownKindOverflow`) -/
-theorem line_of_parseTcpSigFull {l : Str} {sg : TcpSig} (h : parseTcpSigFull l = some sg)
-    (hk : ¬ Huginn.KF.C06.unknownKindOverflow l) : TcpLine l sg := by
+/-- **every accepted text is a line of the TCP signature language denoting the parsed value** -/
+theorem line_of_parseTcpSigFull {l : Str} {sg : TcpSig} (h : parseTcpSigFull l = some sg) : TcpLine l sg := by
   unfold parseTcpSigFull full at h
   cases hp : parseTcpSig l with
   | none => simp [hp] at h
@@ -483,7 +462,7 @@ theorem line_of_parseTcpSigFull {l : Str} {sg : TcpSig} (h : parseTcpSigFull l =
           (tsc ++ [':'])))))) ++ s12 := by
         rw [e1, e2, e3, e4, e5, e6, e7, e8, e9, e10, e11, e12]; simp
       obtain ⟨tol, htol, e13⟩ := sepList0_line (R := OptT)
-        (fun a s x r hL hp => parseOpt_line hL hk hp) L13 h13
+        (fun a s x r _ hp => parseOpt_line hp) L13 h13
       have e14 := tag_inv h14
       obtain ⟨tqs, htqs, e15⟩ := sepList0_line (L := s14) (R := fun t q => t = quirkText q) (a := [])
         (fun a s x r _ hp => ⟨printQuirk x, altTags_print quirkTable_consistent hp, printQuirk_eq x⟩)
@@ -501,96 +480,7 @@ namespace Huginn.SigText
 open Huginn.Sig Huginn.SigText.Spec
 set_option linter.unusedSimpArgs false
 
-/-! ### the witness of `unknownKindOverflow` against the grammar -/
-
-/-- a digit string followed by a non-digit is determined by the text -/
-theorem digits_split_unique {t d r r' : Str} {c c' : Char} (ht : ∀ x ∈ t, x.isDigit = true)
-    (hd : ∀ x ∈ d, x.isDigit = true) (hc : c.isDigit = false) (hc' : c'.isDigit = false)
-    (h : t ++ c :: r = d ++ c' :: r') : t = d ∧ c = c' ∧ r = r' := by
-  induction t generalizing d with
-  | nil =>
-    cases d with
-    | nil => simp at h; exact ⟨rfl, h.1, h.2⟩
-    | cons y d' =>
-      simp at h
-      have := hd y List.mem_cons_self
-      rw [← h.1, hc] at this; cases this
-  | cons x t ih =>
-    cases d with
-    | nil =>
-      simp at h
-      have := ht x List.mem_cons_self
-      rw [h.1, hc'] at this; cases this
-    | cons y d' =>
-      simp at h
-      obtain ⟨e1, e2, e3⟩ := ih (fun z hz => ht z (List.mem_cons_of_mem _ hz))
-        (fun z hz => hd z (List.mem_cons_of_mem _ hz)) h.2
-      exact ⟨by rw [h.1, e1], e2, e3⟩
-
-def overflowLine : Str := "*:64:0:*:*,0:?300::0".toList
-def overflowValue : TcpSig := ⟨.any, .value 64, 0, none, .any, some 0, [.unknown 0], [], .zero⟩
-
-theorem overflow_parses : parseTcpSigFull overflowLine = some overflowValue := by decide +kernel
-
-/-- `*:64:0:*:*,0:?300::0` is not a line of the language for the value the parser returns (`?0`) -/
-theorem overflow_not_line : ¬ TcpLine overflowLine overflowValue := by
-  rintro ⟨tv, tt, to, tm, tw, tsc, tol, tqs, tp, hl, hv, ht, ho, hm, hw, hsc, hol, hqs, hp⟩
-  simp only [overflowValue] at hv ht ho hm hw hsc hol hqs hp
-  have e1 : tv = ['*'] := hv
-  have e2 : tm = ['*'] := hm
-  have e3 : tw = ['*'] := hw
-  have e4 : tp = ['0'] := hp
-  have ht' : NumT 255 tt 64 := ht
-  have hsc' : NumT 255 tsc 0 := hsc
-  cases hqs
-  cases hol with
-  | cons hx hrest =>
-    cases hrest
-    rename_i t
-    obtain ⟨tv2, rfl, hn⟩ := hx
-    subst e1 e2 e3 e4
-    have hl' : "64:0:*:*,0:?300::0".toList = tt ++ ':' :: (to ++ ':' :: ('*' :: ':' :: '*' :: ',' ::
-        (tsc ++ ':' :: '?' :: (tv2 ++ ':' :: ':' :: ['0'])))) := by
-      have : overflowLine = '*' :: ':' :: "64:0:*:*,0:?300::0".toList := by decide
-      rw [this] at hl
-      simpa [joinWith] using hl
-    have d64 : ∀ x ∈ ['6', '4'], x.isDigit = true := by decide
-    have d0 : ∀ x ∈ ['0'], x.isDigit = true := by decide
-    have d300 : ∀ x ∈ ['3', '0', '0'], x.isDigit = true := by decide
-    have a1 : "64:0:*:*,0:?300::0".toList = ['6', '4'] ++ ':' :: "0:*:*,0:?300::0".toList := by decide
-    rw [a1] at hl'
-    obtain ⟨rfl, _, hl2⟩ := digits_split_unique d64 ht'.2.1 (by decide) (by decide) hl'
-    have a2 : "0:*:*,0:?300::0".toList = ['0'] ++ ':' :: "*:*,0:?300::0".toList := by decide
-    rw [a2] at hl2
-    obtain ⟨rfl, _, hl3⟩ := digits_split_unique d0 ho.2.1 (by decide) (by decide) hl2
-    have a3 : "*:*,0:?300::0".toList = '*' :: ':' :: '*' :: ',' :: (['0'] ++ ':' :: "?300::0".toList) := by decide
-    rw [a3] at hl3
-    simp only [List.cons.injEq, true_and] at hl3
-    obtain ⟨rfl, _, hl4⟩ := digits_split_unique d0 hsc'.2.1 (by decide) (by decide) hl3
-    have a4 : "?300::0".toList = '?' :: (['3', '0', '0'] ++ ':' :: ':' :: ['0']) := by decide
-    rw [a4] at hl4
-    simp only [List.cons.injEq, true_and] at hl4
-    obtain ⟨rfl, _, _⟩ := digits_split_unique d300 hn.2.1 (by decide) (by decide) hl4
-    have := hn.2.2.1
-    revert this; decide
-
-end Huginn.SigText
-
-namespace Huginn.SigText
-open Huginn.Sig Huginn.SigText.Spec
-set_option linter.unusedSimpArgs false
-
 /-! ### HTTP: the parser accepts exactly the printed forms -/
-
-/-- what `parse_http_signature` can return before its name filter: version 0/1/*, headers over the
-vocabulary (names possibly empty), at least one header in each list (the header parser never fails,
-so `separated_list0/1` always yield one) -/
-structure RawOk (raw : HttpSigL) : Prop where
-  version : versionInGrammar raw.version = true
-  horder : ∀ h ∈ raw.horder, WFHdrL h
-  horder_ne : raw.horder ≠ []
-  habsent : ∀ h ∈ raw.habsent, WFHdrL h
-  habsent_ne : raw.habsent ≠ []
 
 theorem nameChar_of_isNameChar {c : Char} (h : isNameChar c = true) : nameChar c = true := by
   simp only [isNameChar, Bool.and_eq_true] at h
@@ -603,7 +493,7 @@ theorem parseHeaderL_wf {s r : Str} {h : HeaderL} (hp : parseHeaderL s = some (h
   | some x =>
     obtain ⟨o, s1⟩ := x
     simp only [h1] at hp
-    cases h2 : many0 isNameChar s1 with
+    cases h2 : many1 isNameChar s1 with
     | none => simp [h2] at hp
     | some y =>
       obtain ⟨name, s2⟩ := y
@@ -614,7 +504,7 @@ theorem parseHeaderL_wf {s r : Str} {h : HeaderL} (hp : parseHeaderL s = some (h
         obtain ⟨v, s3⟩ := z
         simp [h3] at hp
         obtain ⟨rfl, rfl⟩ := hp
-        refine ⟨fun c hc => nameChar_of_isNameChar ((many0_inv h2).2.1 c hc), ?_⟩
+        refine ⟨fun c hc => nameChar_of_isNameChar ((many1_inv h2).2.2.1 c hc), ?_⟩
         intro x hx
         simp only at hx
         rcases opt_inv h3 with ⟨a, rfl, hb⟩ | ⟨rfl, _⟩
@@ -638,121 +528,35 @@ theorem parseHeaderL_wf {s r : Str} {h : HeaderL} (hp : parseHeaderL s = some (h
                 exact (takeUntil_inv g2).2.1
         · cases hx
 
-theorem parseHeaderL_total (s : Str) : ∃ h r, parseHeaderL s = some (h, r) := by
-  unfold parseHeaderL
-  simp only [opt, many0]
-  cases tag ['?'] s <;> (simp; cases bracketValue _ <;> simp)
-
-theorem sepLoop_header_isSome (fuel : Nat) (s : Str) : ∃ xs r, sepLoop comma parseHeaderL fuel s = some (xs, r) := by
-  induction fuel generalizing s with
-  | zero => exact ⟨[], s, rfl⟩
-  | succ f ih =>
-    unfold sepLoop
-    cases hc : comma s with
-    | none => exact ⟨[], s, rfl⟩
-    | some y =>
-      obtain ⟨u, s1⟩ := y
-      obtain ⟨h, s2, hp⟩ := parseHeaderL_total s1
-      have e1 : s = ',' :: s1 := tag_inv hc
-      have e2 := parseHeaderL_inv hp
-      have hlen : s2.length ≠ s.length := by rw [e1, e2]; simp; omega
-      obtain ⟨xs, r, hl⟩ := ih s2
-      simp only [hp, if_neg hlen, hl]
-      exact ⟨_, _, rfl⟩
-
 theorem httpVersionTable_inGrammar : ∀ e ∈ httpVersionTable, versionInGrammar e.2 = true := by decide +kernel
 
-theorem read_all {α} {R : α → Str → Prop} {Q : α → Prop} {xs : List α} {ts : List Str}
-    (h : Read (fun x t => R x t ∧ Q x) xs ts) : Read R xs ts ∧ ∀ x ∈ xs, Q x := by
+theorem read_wf {xs : List HeaderL} {ts : List Str}
+    (h : Read (fun x t => t = printHeaderL x ∧ (WFHdrL x ∧ x.name ≠ [])) xs ts) :
+    ∀ x ∈ xs, WFHdrL x ∧ x.name ≠ [] := by
   induction h with
-  | nil => exact ⟨.nil, fun _ h => by cases h⟩
+  | nil => intro _ h; cases h
   | cons hx _ ih =>
-    refine ⟨.cons hx.1 ih.1, ?_⟩
     intro y hy
     rcases List.mem_cons.mp hy with rfl | hy
     · exact hx.2
-    · exact ih.2 y hy
+    · exact ih y hy
 
-theorem read_ne_nil {α} {R : α → Str → Prop} {xs : List α} {ts : List Str} (h : Read R xs ts) :
-    xs ≠ [] ↔ ts ≠ [] := by
-  cases h <;> simp
-
-/-- accepted ⇒ printed form of a `RawOk` value -/
-theorem rawOk_of_parse {l r : Str} {raw : HttpSigL} (h : parseHttpSigRawL l = some (raw, r)) : RawOk raw := by
+/-- accepted ⇒ a value over the vocabulary -/
+theorem wf_of_parse {l r : Str} {raw : HttpSigL} (h : parseHttpSigRawL l = some (raw, r)) : WFHttpL raw := by
   simp only [parseHttpSigRawL, Option.bind_eq_bind, Option.bind_eq_some_iff, Option.pure_def,
     Option.some.injEq, Prod.mk.injEq, Prod.exists] at h
   obtain ⟨ver, s1, h1, u1, s2, h2, ho, s3, h3, u2, s4, h4, ha, s5, h5, u3, s6, h6, sw, s7, h7, rfl, rfl⟩ := h
   obtain ⟨tok, hm, _⟩ := altTags_inv h1
   have hver := httpVersionTable_inGrammar _ hm
-  -- horder
-  have hho : (∀ h ∈ ho, WFHdrL h) ∧ ho ≠ [] := by
-    unfold sepList1 at h3
-    cases g : parseHeaderL s2 with
-    | none => simp [g] at h3
-    | some z =>
-      obtain ⟨o, t1⟩ := z
-      simp only [g] at h3
-      cases gl : sepLoop comma parseHeaderL (t1.length + 1) t1 with
-      | none => simp [gl] at h3
-      | some w =>
-        obtain ⟨os, r'⟩ := w
-        simp [gl] at h3
-        obtain ⟨rfl, rfl⟩ := h3
-        obtain ⟨ts, hr, _⟩ := sepLoop_inv (R := fun x t => t = printHeaderL x ∧ WFHdrL x)
-          (fun s x r hp => ⟨printHeaderL x, parseHeaderL_inv hp, rfl, parseHeaderL_wf hp⟩) _ gl
-        refine ⟨?_, by simp⟩
-        intro h hh
-        rcases List.mem_cons.mp hh with rfl | hh
-        · exact parseHeaderL_wf g
-        · exact (read_all hr).2 h hh
-  -- habsent
-  have hha : (∀ h ∈ ha.getD [], WFHdrL h) ∧ ha.getD [] ≠ [] := by
-    obtain ⟨o, t1, g⟩ := parseHeaderL_total s4
-    obtain ⟨os, r', gl⟩ := sepLoop_header_isSome (t1.length + 1) t1
-    have hs : sepList0 comma parseHeaderL s4 = some (o :: os, r') := by simp [sepList0, g, gl]
-    have : ha = some (o :: os) := by
-      simp only [opt, hs, Option.some.injEq, Prod.mk.injEq] at h5
-      exact h5.1.symm
-    subst this
-    obtain ⟨ts, hr, _⟩ := sepLoop_inv (R := fun x t => t = printHeaderL x ∧ WFHdrL x)
-      (fun s x r hp => ⟨printHeaderL x, parseHeaderL_inv hp, rfl, parseHeaderL_wf hp⟩) _ gl
-    refine ⟨?_, by simp⟩
-    intro h hh
-    simp only [Option.getD_some] at hh
-    rcases List.mem_cons.mp hh with rfl | hh
-    · exact parseHeaderL_wf g
-    · exact (read_all hr).2 h hh
-  exact ⟨hver, hho.1, hho.2, hha.1, hha.2⟩
-
-/-- printed form of a `RawOk` value ⇒ accepted, with that value -/
-theorem parse_of_rawOk (raw : HttpSigL) (h : RawOk raw) :
-    parseHttpSigRawL (printHttpSigL raw) = some (raw, []) := by
-  obtain ⟨ver, horder, habsent, expsw⟩ := raw
-  obtain ⟨hv, hh, hne, ha, hane⟩ := h
-  simp only at hv hh hne ha hane
-  cases horder with
-  | nil => exact absurd rfl hne
-  | cons x xs =>
-    cases habsent with
-    | nil => exact absurd rfl hane
-    | cons y ys =>
-      have e : printHttpSigL ⟨ver, x :: xs, y :: ys, expsw⟩ =
-          printHttpVersion ver ++ (':' :: (joinComma printHeaderL (x :: xs) ++
-            (':' :: (joinComma printHeaderL (y :: ys) ++ (':' :: expsw))))) := by
-        simp [printHttpSigL]
-      have h1 : ∀ r, sepList1 comma parseHeaderL (joinComma printHeaderL (x :: xs) ++ ':' :: r) =
-          some (x :: xs, ':' :: r) :=
-        fun r => sepList1_joinComma parseHeaderL printHeaderL x xs (Or.inr ⟨r, rfl⟩)
-          (fun h hm r' hr' => parseHeaderL_print h (hh h hm) hr')
-      have h2 : ∀ r, opt (sepList0 comma parseHeaderL) (joinComma printHeaderL (y :: ys) ++ ':' :: r) =
-          some (some (y :: ys), ':' :: r) := by
-        intro r
-        have := sepList0_joinComma parseHeaderL printHeaderL (y :: ys) (Or.inr ⟨r, rfl⟩)
-          (fun h hm r' hr' => parseHeaderL_print h (ha h hm) hr') (fun e => by cases e)
-        simp [opt, this]
-      unfold parseHttpSigRawL
-      rw [e]
-      simp only [parseHttpVersion_print ver hv, colon_cons, Option.bind_eq_bind, Option.bind_some, h1, h2,
-        rest, Option.pure_def, Option.getD_some]
+  have hinv : ∀ s x r, parseHeaderL s = some (x, r) →
+      ∃ t, s = t ++ r ∧ (t = printHeaderL x ∧ (WFHdrL x ∧ x.name ≠ [])) :=
+    fun s x r hp => ⟨printHeaderL x, parseHeaderL_inv hp, rfl, parseHeaderL_wf hp, parseHeaderL_name hp⟩
+  obtain ⟨ts, hr, _⟩ := sepList0_inv hinv h3
+  have hha : ∀ x ∈ ha.getD [], WFHdrL x ∧ x.name ≠ [] := by
+    rcases opt_inv h5 with ⟨xs, rfl, hs⟩ | ⟨rfl, _⟩
+    · obtain ⟨ts', hr', _⟩ := sepList0_inv hinv hs
+      simpa using read_wf hr'
+    · intro x hx; cases hx
+  exact ⟨hver, read_wf hr, hha⟩
 
 end Huginn.SigText
